@@ -37,6 +37,12 @@ EL_NAMES = ["a", "b", "c", "d", "e", "f", "g", "h", "item", "Title", "sub-item",
             "entry", "Tag", "post_id", "Origin", "k2", "note", "val", "data", "info", "name", "kind"]
 AT_NAMES = ["id", "ref", "kind", "status", "created_at", "data-x", "x.y", "v1", "name", "n", "author", "mode",
             "Level", "tok", "lang", "unit", "a", "b"]
+# names the library itself uses for the fields it invents (text field, mixed content, wildcards, compound fields,
+# generic elements): a schema is free to use them for its own elements and attributes
+HOSTILE_EL = ["value", "content", "any_element", "other_element", "choice", "choice_1", "type", "qname", "text", "tail",
+              "children", "attributes", "any_attributes", "other_attributes", "foreign_element", "local_element", "Meta"]
+HOSTILE_AT = ["value", "content", "any_attributes", "other_attributes", "foreign_attributes", "any_element", "choice",
+              "type", "qname", "text", "tail", "children", "attributes", "nil"]
 TYPE_NAMES = ["TA", "TB", "TC", "TD", "TE", "Base", "Derived", "ItemType", "Node", "Info", "Rec", "part-type"]
 STYPE_NAMES = ["SA", "SB", "SC", "Kind", "Code", "Small", "Toks", "NumOrTok", "color-type"]
 TEXTS = ["t", "hello world", "x<y", "a&b", "é", " lead", "trail ", "two  spaces", "1", "0", "true", "中文",
@@ -228,8 +234,9 @@ class SchemaGen:
         self.f = set(features)
         self.m = {"files": [], "stypes": {}, "ctypes": {}, "groups": {}, "agroups": {}, "gattrs": {}, "elements": {},
                   "root": None, "features": sorted(features)}
-        self.el_pool = list(EL_NAMES)
+        self.el_pool = list(EL_NAMES) + list(HOSTILE_EL)
         rng.shuffle(self.el_pool)
+        self.anon_seen = [[]]         # per nesting level of anonymous types: names of the anonymous-typed elements so far
         self.used_global = set()
         self.blocked = set()          # complex types the type under construction must not mention
         self.local_used = set()       # names of local element declarations
@@ -438,12 +445,14 @@ class SchemaGen:
                 return v
         return None
 
-    def gen_attrs(self, f, taken, n=None):
+    def gen_attrs(self, f, taken, n=None, text_field=False):
         r = self.r
         out = []
         n = r.choice([0, 0, 1, 1, 2, 3]) if n is None else n
-        for _ in range(n):
-            name = self.fresh(AT_NAMES, taken)
+        for i in range(n):
+            name = self.fresh(HOSTILE_AT if r.random() < 0.3 else AT_NAMES, taken)
+            if text_field and i == 0 and "value" not in taken and r.random() < 0.25:
+                name = "value"          # next to the text field of a simple-content class, which the library calls value
             taken.add(name)
             gl = [g for g, a in self.m["gattrs"].items() if self.visible(f, a["file"]) and g not in taken]
             if gl and r.random() < 0.15:
@@ -512,24 +521,36 @@ class SchemaGen:
         if not local_names:
             local_names = [self.fresh([x for x in EL_NAMES if x not in self.m["elements"]] or EL_NAMES, set(names))]
             names.append(local_names[0])
-        name = r.choice(local_names)
+        name, force_anon = None, False
+        if len(self.anon_seen) in (2, 3) and r.random() < 0.4:
+            # an anonymous type inside an anonymous type: reuse the NAME of an anonymous-typed element declared earlier
+            # on an outer level (same-named inner classes on different nesting depths of one class)
+            outer = [n for lvl in self.anon_seen[:-1] for n in lvl if n in local_names]
+            if outer:
+                name, force_anon = r.choice(outer), True
+        if name is None:
+            hostile = [n for n in local_names if n in HOSTILE_EL]
+            name = r.choice(hostile) if hostile and r.random() < 0.3 else r.choice(local_names)
         names.remove(name)
         self.local_used.add(name)
-        decl = self.gen_local_decl(f, name, owner)
+        decl = self.gen_local_decl(f, name, owner, force_anon=force_anon)
         return {"k": "el", "decl": decl, "min": mn, "max": mx}
 
-    def gen_local_decl(self, f, name, owner=None, depth=0):
+    def gen_local_decl(self, f, name, owner=None, depth=0, force_anon=False):
         r = self.r
         fi = self.m["files"][f]
         decl = {"name": name, "type": None, "nillable": False, "form": None, "default": None, "fixed": None,
                 "global": False, "abstract": False, "subst": None, "file": f}
         k = r.random()
         cts = [n for n, c in self.m["ctypes"].items() if self.visible(f, c["file"]) and n not in self.blocked]
-        if cts and k < 0.25:
+        if cts and k < 0.25 and not force_anon:
             decl["type"] = ["c", r.choice(cts)]
-        elif self.has("anon") and k < 0.4 and self.depth_budget > 0:
+        elif force_anon or (self.has("anon") and k < 0.4 and self.depth_budget > 0):
             self.depth_budget -= 1
+            self.anon_seen[-1].append(name)
+            self.anon_seen.append([])
             decl["type"] = ["ac", self.gen_cdef(f, None, depth=1)]
+            self.anon_seen.pop()
         else:
             decl["type"] = self.simple_ref(f)
             kd = r.random()
@@ -551,6 +572,8 @@ class SchemaGen:
         c = {"name": name, "file": f, "mixed": False, "abstract": False, "base": None, "simple": None, "particle": None,
              "attrs": [], "agroups": [], "anyattr": None}
         taken_attrs = set()
+        if depth == 0:
+            self.anon_seen = [[]]
         names = [n for n in self.el_pool]
         r.shuffle(names)
         k = r.random()
@@ -566,11 +589,11 @@ class SchemaGen:
                     names.remove(x)
             taken_attrs |= set(self.type_attr_names(["c", bn]))
             if self.m["ctypes"][bn]["simple"] is not None or self.simple_content(bn):
-                c["attrs"] = self.gen_attrs(f, taken_attrs, r.choice([1, 1, 2]))
+                c["attrs"] = self.gen_attrs(f, taken_attrs, r.choice([1, 1, 2]), text_field=True)
                 return c
         elif self.has("simplecontent") and k < 0.5:
             c["simple"] = self.simple_ref(f, depth=3)
-            c["attrs"] = self.gen_attrs(f, taken_attrs, r.choice([1, 1, 2]))
+            c["attrs"] = self.gen_attrs(f, taken_attrs, r.choice([1, 1, 2]), text_field=True)
             return c
         if self.has("mixed") and c["base"] is None and r.random() < 0.3:
             c["mixed"] = True
